@@ -1,5 +1,6 @@
 import PedVerif.Drv.Checker
 import PedVerif.Model.TypeSafe
+import PedVerif.Drv.FrozenIR
 namespace PedVerif.Drv.TypeSafe
 open Lean PedVerif.Drv PedVerif.Checker PedVerif.TypeSafe PedVerif.Drv.Checker
 
@@ -7,6 +8,38 @@ def outStr : Outcome → String
   | .instance => "INSTANCE" | .pedTypeCheck => "PED:TypeCheck" | .pedTVMismatch => "PED:TypeVarMismatch" | .escape => "ESC"
   | .postInitExc e => s!"POST_EXC:{e}"
 def evStr : Ev → String | .post => "post" | .validate => "validate"
+
+def vresStr : PedVerif.FrozenIR.VRes → Json
+  | .passed => jStr "INSTANCE" | .raised o => jStr (outStr o) | .illFormed => Json.null
+def presStr : PedVerif.FrozenIR.PRes → Json
+  | .done => jStr "INSTANCE" | .raised o => jStr (outStr o) | .illFormed => Json.null
+
+/-- the same case run through the statement programs of `Gen/FrozenIR.lean` (`"hook"`: the `__post_init__` chain of the class): the statements
+    executed, the outcome, how often the user's hook ran -/
+def irJ (c : Json) (env0 : Env) (locals : List (NameId × ClsId)) (caller : Frame) (outer : List Frame) (orc : Nat → Val → Raw)
+    (pth : Path) (fvs : List (Field × Val)) : Json :=
+  match jF c "hook" with
+  | .null => Json.null
+  | hj =>
+    if jS (jF c "path") == "validate" then
+      let r := PedVerif.FrozenIR.irValidateCall env0 locals orc fvs caller outer
+      mkObj [("path", PedVerif.Drv.FrozenIR.pathJ r.2), ("outcome", vresStr r.1), ("journal", jNat 0)]
+    else
+      let (reaches, q) := PedVerif.FrozenIR.reachesInit pth
+      if !reaches then mkObj [("path", PedVerif.Drv.FrozenIR.pathJ q), ("outcome", jStr "INSTANCE"), ("journal", jNat 0)] else
+      let r := PedVerif.FrozenIR.runInit ⟨env0, locals, orc, fvs, pth, caller, outer⟩ (PedVerif.Drv.FrozenIR.hookOf hj)
+      -- "cur" / "kw": what the receiver holds and the keywords of the copy call - the values of the copy as the translated method computes
+      -- them must be the values the harness says the new instance holds
+      let agree : Json := match jF c "cur" with
+        | .null => Json.null
+        | cj =>
+          let cur : List (Field × Val) := (jL cj).map fun f => (⟨jN (jAt f 0), parseAnn (jAt f 1)⟩, parseVal (jAt f 2))
+          let kw : List (NameId × Val) := (jL (jF c "kw")).map fun p => (jN (jAt p 0), parseVal (jAt p 1))
+          match PedVerif.FrozenIR.copiedFields pth cur kw with
+          | some got => jBool (toString (repr (got.map fun fv => (fv.1.name, fv.2))) == toString (repr (fvs.map fun fv => (fv.1.name, fv.2))))
+          | none => jBool false
+      mkObj [("path", PedVerif.Drv.FrozenIR.pathJ (q ++ r.2.2)), ("outcome", presStr r.1),
+             ("journal", jNat (r.2.1.filter (· == .post)).length), ("fieldsAgree", agree)]
 
 /-- case: {"env", "fields": [[name, ann, val]], "typeSafe": bool, "post": "absent" | "runs" | ["raises", id],
            "path": "constructor" | "copy_with" | "deep_copy_with" | "validate"} -/
@@ -39,12 +72,13 @@ def handle (c : Json) : Json :=
   match jS (jF c "path") with
   | "validate" =>
     mkObj [("outcome", jStr (outStr (validateCall env orc fvs))), ("journal", jArr []), ("spec", jBool spec), ("claimed", jBool guards),
-           ("regions", jArr (regions.map jStr)), ("wf", jBool (fvs.all fun fv => fv.2.wf env))]
+           ("regions", jArr (regions.map jStr)), ("wf", jBool (fvs.all fun fv => fv.2.wf env)),
+           ("ir", irJ c env0 locals caller outer orc pth fvs)]
   | p =>
     let path : Path := if p == "copy_with" then .copyWith else if p == "deep_copy_with" then .deepCopyWith else .constructor
     let r := construct env orc ts up path fvs
     mkObj [("outcome", jStr (outStr r.2)), ("journal", jArr (r.1.filter (· == .post) |>.map (fun e => jStr (evStr e)))),
            ("spec", jBool spec), ("claimed", jBool guards), ("regions", jArr (regions.map jStr)),
-           ("wf", jBool (fvs.all fun fv => fv.2.wf env))]
+           ("wf", jBool (fvs.all fun fv => fv.2.wf env)), ("ir", irJ c env0 locals caller outer orc pth fvs)]
 
 end PedVerif.Drv.TypeSafe
